@@ -5,8 +5,9 @@ RK  the analyser interprets extract_sequence / reverse_strand / relative sub-int
     both cases, and compares with the image oracle (IUPAC complement on the minus strand).
 RS  derived Sequence objects (slice with every bound form incl. None/negative, reverse_complement, append of
     adjacent slices): the characters must equal the image of the recorded parent location.
-R1  structural: SingleInterval.extract_sequence slices with exactly (start, end), complements exactly once on
-    the MINUS path and never on the PLUS path, refuses other strands."""
+    Unstranded locations are refused.
+R1  strengthening note (never an alarm): when SingleInterval.extract_sequence slices with the literal form
+    [self.start : self.end] the single-block kernel holds for all integers; otherwise only a note is written."""
 import ast
 
 from ..astutil import Aff, affine, NotAffine, call_tail, calls_in, enumerate_paths, src, strand_of_test
@@ -23,8 +24,8 @@ EXPLANATION = (
     "reverse_complement/append are interpreted by the analyser for every order type of 1-2 block layouts (3 in "
     "thorough), both strands, over a genome containing every letter of NT_EXTENDED_GAPPED in both cases, and compared "
     "with the image oracle (parent base at the i-th mapped position, IUPAC-complemented on the minus strand; recorded "
-    "parent location of a derived sequence must spell its characters). R1: structural slice/complement discipline of "
-    "SingleInterval.extract_sequence. Not decided: layouts with more blocks; other alphabets' tables are C15."
+    "parent location of a derived sequence must spell its characters). R1: all-integers note on the literal slice form of "
+    "SingleInterval.extract_sequence (informational; never alarms). Not decided: layouts with more blocks; other alphabets' tables are C15."
 )
 
 LOC = "location.location_impl"
@@ -88,6 +89,17 @@ def _case(repo, it, S, layout, sn):
     if k != "ok" or _seq_str(v) != want:
         out.append(("extract_sequence", f"{desc}.extract_sequence() -> {k}:{_seq_str(v) if k == 'ok' else v!r}; the base-by-base image is {want!r}", f_ext.qual))
         return n, out
+    # a location without direction has no 5'->3' reading: refused, never a silent plus-strand read
+    if sn == "PLUS":
+        n += 1
+        try:
+            uloc = _mk_loc(it, S, layout, "UNSTRANDED", par)
+            k, v = run(it, f_ext, [], {}, uloc)
+        except Raised as ex:
+            k, v = "raise", ex.exc_name
+        if k != "raise" or v != "InvalidStrandException":
+            out.append(("unstranded refused", f"{cls}{stored}:UNSTRANDED.extract_sequence() -> {k}:{_seq_str(v) if k == 'ok' else v!r}; "
+                        f"documented InvalidStrandException", f_ext.qual))
     # reversing the strand reverse-complements the sequence
     f_rev = repo.fn(f"{LOC}:{cls}.reverse_strand")
     n += 1
@@ -264,31 +276,25 @@ def rk_interpreted(ctx):
 
 
 def r1_structural(ctx):
+    """Strengthening note only (never an alarm: the form of the code is free, RK decides the behaviour on the enumerated
+    inputs).  When the slice of the parent string has the recognised form, the slice bounds are (start, end) for all
+    integers, which extends RK's verdict on the single-block kernel beyond the enumerated coordinates."""
     r = ctx.r
     fn = ctx.repo.fn(f"{LOC}:SingleInterval.extract_sequence")
-    # slice bounds
     slices = [n for n in ast.walk(fn.node) if isinstance(n, ast.Subscript) and isinstance(n.slice, ast.Slice)]
     ok = False
     for sl in slices:
         try:
             lo, hi = affine(sl.slice.lower), affine(sl.slice.upper)
-            if (lo, hi) == (Aff.sym("self.start"), Aff.sym("self.end")) and "self.parent.sequence" in src(sl.value):
+            if (lo, hi) == (Aff.sym("self.start"), Aff.sym("self.end")):
                 ok = True
         except (NotAffine, AttributeError, TypeError):
             pass
-    r.check(ok, "C03.R1", fn.qual, "slice bounds = (start, end) of the parent string",
-            "the parent sequence is not sliced with exactly [self.start : self.end]", fn)
-    # reverse_complement exactly once on MINUS, never on PLUS, raise otherwise
-    for st in ast.walk(fn.node):
-        if isinstance(st, ast.If) and strand_of_test(st.test) and strand_of_test(st.test)[0] == "self.strand":
-            member = strand_of_test(st.test)[1]
-            rcs = [c for s_ in st.body for c in calls_in(s_) if call_tail(c) == "reverse_complement"]
-            want = 1 if member == "MINUS" else 0
-            r.check(len(rcs) == want, "C03.R1", fn.qual, f"{member} branch complements {want} time(s)",
-                    f"the {member} branch applies reverse_complement {len(rcs)} time(s)", (fn, st))
-    raises = [n for n in ast.walk(fn.node) if isinstance(n, ast.Raise)]
-    r.check(any("InvalidStrandException" in src(x) for x in raises), "C03.R1", fn.qual, "other strands refused",
-            "a strand that is neither PLUS nor MINUS is not refused with InvalidStrandException", fn)
+    if ok:
+        r.ok("C03.R1", fn.qual, "slice bounds are exactly (self.start, self.end) for all integers", fn)
+    else:
+        r.note("C03.R1: SingleInterval.extract_sequence does not slice with the literal form [self.start : self.end]; the "
+               "all-integers strengthening is not claimed on this tree, the verdict rests on RK's enumerated layouts")
 
 
 RULES = [
